@@ -152,7 +152,7 @@ func realWatcherMain(cs *RWCase) int {
 				if strings.Contains(line, "reload") {
 					return reloadVerdict(line)
 				}
-			case <-time.After(30 * time.Second):
+			case <-time.After(120 * time.Second):
 				return "timeout"
 			}
 		}
